@@ -75,7 +75,7 @@ def c03_file(draw):
     mothers = [cand[i] for i in idx]
     have = set()
     for m, _ in mothers:
-        lines = draw(st.lists(G.decay_line(daughters_pool, (), (), max_daughters=5, max_params=4), min_size=0, max_size=4))
+        lines = draw(st.lists(G.decay_line(daughters_pool, (), (), max_daughters=5, max_params=4), min_size=0 if draw(st.integers(0, 4)) == 0 else 1, max_size=4))
         stmts.append({"k": "decay", "m": m, "lines": lines})
         have.add(m)
     # copies: NEW gets its own conjugate partner declared, so that CDecay of a copy is possible
@@ -90,7 +90,7 @@ def c03_file(draw):
         have.add(new)
     # CDecay subjects
     subj = []
-    hits = [c for m, c in mothers if c is not None] + [nb_ for _, nb_ in copies]
+    hits = [c for m, c in mothers if c is not None and c not in have] + [nb_ for _, nb_ in copies]
     misses = [c[0] for c in cand if c[1] not in have and c[0] not in have]
     shadowed = [m for m, c in mothers if c in have]
     k = draw(st.integers(1, 4))
@@ -107,7 +107,7 @@ def c03_file(draw):
     for x in subj:
         stmts.append({"k": "cdecay", "x": x})
     stmts = list(draw(st.permutations(stmts)))
-    f = {"stmts": stmts, "include_cc": draw(st.integers(0, 3)) != 0}
+    f = {"stmts": stmts, "include_cc": draw(st.sampled_from((True, True, True, True, False)))}
     f.update(G.file_flags(draw))
     return f
 
